@@ -71,6 +71,7 @@ type sys struct {
 	m      iterable.Mixer[int]
 	s1, s2 *src
 	p1, p2 int
+	i1, i2 iterable.Iterator[int]
 	dead   bool // after a failed Reset nothing more is specified
 	g      *gsrc
 }
@@ -122,6 +123,7 @@ func (s *sys) init() {
 		s.g = r2
 		i1, i2 = r1, r2
 	}
+	s.i1, s.i2 = i1, i2
 	s.m.Init(selectors[c.sel].f, i1, i2)
 }
 
@@ -199,7 +201,9 @@ func (s *sys) key() string {
 	if s.g != nil {
 		gh = s.g.ghostUsed
 	}
-	return fmt.Sprintf("%d %v %v %d %d %d %d %v %v", st, l1, l2, i1, i2, s.p1, s.p2, s.dead, gh)
+	// the whole Mixer value is part of the key (every field it has, inputs by identity): a state is merged with an
+	// earlier one only if the implementation itself cannot tell them apart
+	return fmt.Sprintf("%d %v %v %d %d %d %d %v %v | %s", st, l1, l2, i1, i2, s.p1, s.p2, s.dead, gh, iterable.VerifMixerDump(&s.m, s.i1, s.i2))
 }
 
 func seqs(maxLen int) [][]int {
